@@ -464,8 +464,34 @@ let cmd_lexgen args =
        else Printf.printf "DIFF itemsets_state=%d emitted_state=%d model_states=%d gocc_states=%d\n" d1 d2 (List.length rows) (List.length rows0))
   | _ -> failwith "lexgen"
 
+(* synast <file.bnf> [names]: Front/SynAst.v — the generator's numeric input computed from the BYTES of the grammar file; prints the five
+   lines of gen.in exactly as lib/lrcommon.py gen_input_text writes them, or NONE.  With "names": two more lines, the terminal and
+   nonterminal names (hex) in number order *)
+let cmd_synast file names =
+  let ic = open_in_bin file in
+  let n = in_channel_length ic in
+  let s = really_input_string ic n in
+  close_in ic;
+  let src = List.init n (fun i -> z_of_int (Char.code s.[i])) in
+  match gen_input_of_source src with
+  | None -> print_endline "NONE"
+  | Some gi ->
+    let skey = function T a -> "T" ^ string_of_int (int_of_nat a) | NT a -> "N" ^ string_of_int (int_of_nat a) in
+    let nats l = String.concat " " (List.map (fun k -> string_of_int (int_of_nat k)) l) in
+    Printf.printf "%d %d %d\n" (int_of_nat gi.gi_nn) (int_of_nat gi.gi_ntm) (int_of_nat gi.gi_terr);
+    print_endline (String.concat ";" (List.map (fun p ->
+      Printf.sprintf "%d:%s" (int_of_nat p.lhs) (String.concat " " (List.map skey p.rhs))) gi.gi_g));
+    print_endline (String.concat " " (List.map skey gi.gi_symbols));
+    print_endline (nats gi.gi_la);
+    print_endline (String.concat " " (List.map (fun b -> if b then "1" else "0") gi.gi_pacts));
+    if names then begin
+      print_endline (String.concat " " (List.map hex_encode gi.gi_tnames));
+      print_endline (String.concat " " (List.map hex_encode gi.gi_nnames))
+    end
+
 let () =
   match Array.to_list Sys.argv with
+  | _ :: "synast" :: file :: rest -> cmd_synast file (rest = ["names"])
   | _ :: "lexgen" :: args -> cmd_lexgen args
   | _ :: "frontsem" :: file :: fpt :: nums when List.length nums = 12 -> cmd_frontsem file (int_of_string fpt) nums
   | _ :: "gen" :: file :: _ -> cmd_gen file
